@@ -1288,6 +1288,100 @@ theorem bufferAll_tsInv (pv m : Int) (rs : List Rec) : ∀ b ∈ (bufferAll pv m
 theorem bufferAll_msBound (pv m : Int) (rs : List Rec) : ∀ b ∈ (bufferAll pv m [] rs).1, MsBound pv m b :=
   bufferAll_pred (MsBound pv m) pv m (fun h => absurd rfl h) (fun r b b' _ h => tryBuffer_msBound b b' r pv m h) rs [] (by simp)
 
+/-! ## header bytes are part of what is accounted for every record
+
+`Rec.headers` is an arbitrary list: none of the lemmas above restricts it. The lemmas below make the dependence
+explicit: the accounted length of a record is at least its key, value and header bytes plus 7, so the batch
+bound is a bound on the users' bytes *including headers* — the fact a `tryBuffer` that sized a record as a message
+(`messageSet1Length`, which has no headers) would lose. -/
+
+/-- key and value bytes of the headers -/
+def headersBytes : List Header → Nat
+  | [] => 0
+  | h :: hs => h.key.length + blen h.value + headersBytes hs
+
+/-- the user's bytes of a record: key, value, and the key and value of every header -/
+def userBytes (r : Rec) : Nat := blen r.key + blen r.value + headersBytes r.headers
+
+def userSum : List PRec → Nat
+  | [] => 0
+  | pr :: rest => userBytes pr.r + userSum rest
+
+theorem headersBytes_le : ∀ hs : List Header, headersBytes hs + 2 * hs.length ≤ headersLen hs
+  | [] => by simp [headersBytes, headersLen]
+  | h :: hs => by
+    have := headersBytes_le hs
+    have := varintLen_pos (h.key.length : Int)
+    have := varintLen_pos (blen h.value : Int)
+    simp only [headersBytes, headersLen, headerLen, List.length_cons]
+    omega
+
+/-- the length field of a record: attributes byte, five varints of at least one byte, and every user byte -/
+theorem userBytes_le_recBody (r : Rec) (d : Int) (i : Nat) : userBytes r + 6 ≤ recBody r d i := by
+  have := headersBytes_le r.headers
+  have := varintLen_pos d
+  have := varintLen_pos (i : Int)
+  have := varintLen_pos (blen r.key : Int)
+  have := varintLen_pos (blen r.value : Int)
+  have := varintLen_pos (r.headers.length : Int)
+  unfold userBytes recBody
+  omega
+
+theorem userSum_le_wireSum (i : Nat) (l : List PRec) (h : AllOK i l) : userSum l + 7 * l.length ≤ wireSum l := by
+  induction l generalizing i with
+  | nil => simp [userSum, wireSum]
+  | cons a l ih =>
+    have h1 := ih (i + 1) h.2
+    have h2 := userBytes_le_recBody a.r a.tsDelta i
+    have h3 : a.length = recBody a.r a.tsDelta i := h.1
+    have h4 := varintLen_pos (a.length : Int)
+    simp only [userSum, wireSum, numsWireLength, List.length_cons]
+    omega
+
+theorem zz_natCast (n : Nat) : zz (n : Int) = 2 * n := by
+  simp only [zz]
+  split <;> omega
+
+theorem numsWireLength_mono (a b : Nat) (h : a ≤ b) : numsWireLength a ≤ numsWireLength b := by
+  have := lenU_mono (zz (b : Int)) (zz (a : Int)) (by rw [zz_natCast, zz_natCast]; omega)
+  simp only [numsWireLength, varintLen]
+  omega
+
+/-- a record's length field is smallest at the head of a batch (both deltas 0, one byte each) -/
+theorem lengthField_ge_new (b : Batch) (r : Rec) :
+    (calculateRecordNumbers newRecordBatch r).1 ≤ (calculateRecordNumbers b r).1 := by
+  have h0 : varintLen ((0 : Nat) : Int) = 1 := varintLen_zero
+  have := varintLen_pos (if b.records.length = 0 then 0 else r.ts - b.firstTimestamp)
+  have := varintLen_pos (b.records.length : Int)
+  simp only [calculateRecordNumbers, newRecordBatch, List.length_nil, if_true, varintLen_zero, h0]
+  omega
+
+/-- the first record of a batch needs at least its user bytes plus 7 -/
+theorem numsWireLength_new_ge (r : Rec) :
+    userBytes r + 7 ≤ numsWireLength (calculateRecordNumbers newRecordBatch r).1 := by
+  have h := userBytes_le_recBody r 0 0
+  have hp := varintLen_pos ((calculateRecordNumbers newRecordBatch r).1 : Int)
+  have h0 : varintLen ((0 : Nat) : Int) = 1 := varintLen_zero
+  simp only [recBody, h0, varintLen_zero] at h
+  simp only [numsWireLength, calculateRecordNumbers, newRecordBatch, List.length_nil, if_true, varintLen_zero, h0] at hp ⊢
+  omega
+
+/-- a record accepted under record-batch accounting fits, with its headers, an empty batch -/
+theorem tryBuffer_fits_new (b b' : Batch) (r : Rec) (pv m : Int) (hpv : V2Acct pv) (hb : BatchInv b)
+    (h : tryBuffer b r pv m = some b') :
+    recordBatchOverhead - 4 + numsWireLength (calculateRecordNumbers newRecordBatch r).1 + 1 ≤ m := by
+  have hbound := (tryBuffer_bound b b' r pv m hpv h).1
+  have hmono := numsWireLength_mono _ _ (lengthField_ge_new b r)
+  unfold tryBuffer at h
+  simp only at h
+  split at h
+  · simp at h
+  · simp only [Option.some.injEq] at h
+    subst h
+    have hw := hb.wire
+    simp only [appendRecord, batchLength] at hbound
+    omega
+
 /-! ## a few concrete LEB128 lengths -/
 theorem l0 : lenU 0 = 1 := Proof.C17.lenU_lt (by omega)
 theorem l62 : lenU 62 = 1 := Proof.C17.lenU_lt (by omega)
